@@ -197,12 +197,29 @@ func (l *loaded) checkScans(q string) {
 	}
 }
 
-func (l *loaded) checkStat() {
+func (l *loaded) checkStat() string {
 	got := l.c.Do("trie.stat")
 	want := fmt.Sprintf("keys=%d ", len(l.o.keys))
 	if !strings.Contains(got, " "+want) {
 		l.viol("Stat: KeyCnt = number of indexed keys", "trie.stat", want, got)
 	}
+	// the level table: total = inner + leaf in every row, rows never decrease, the last row carries the totals
+	var levelCnt, keys, nodes int
+	var lv string
+	if _, err := fmt.Sscanf(got, "levelcnt=%d levels=%s keys=%d nodes=%d", &levelCnt, &lv, &keys, &nodes); err == nil {
+		var pt, pi, pl int
+		ls := strings.Split(lv, ",")
+		for k, row := range ls {
+			var t, i, f int
+			fmt.Sscanf(row, "%d/%d/%d", &t, &i, &f)
+			if t != i+f || t < pt || i < pi || f < pl || (k == len(ls)-1 && (t != nodes || (len(l.o.keys) > 0 && f != keys))) {
+				l.viol("Stat of a legacy-loaded trie: level rows consistent (total = inner + leaf, never decreasing, last row = totals)", "trie.stat", "", got)
+				break
+			}
+			pt, pi, pl = t, i, f
+		}
+	}
+	return got
 }
 
 func isAllpref(variant string) bool { return strings.HasPrefix(variant, "allpref-") }
@@ -222,11 +239,14 @@ func (l *loaded) battery(every int, nq, nscan int) {
 	// index with the CURRENT writer and loading that into a fresh instance; the same answers are demanded.
 	if c.Rng.Intn(2) == 0 {
 		c.Hit("upgrade:marshal+reload")
+		before := c.Do("trie.stat")
 		if got := c.Do("trie.reload"); got != "ok" {
 			l.viol("upgrade: a loaded legacy stream written by the current writer must load", "trie.reload", "ok", got)
 			return
 		}
-		l.checkStat()
+		if after := l.checkStat(); after != before {
+			l.viol("Stat of a legacy-loaded trie is unchanged by a marshal round trip", "trie.reload; trie.stat", before, after)
+		}
 	}
 	for i := range l.o.keys {
 		if every <= 1 || i%every == 0 || i == len(l.o.keys)-1 {
@@ -628,6 +648,28 @@ func genC14legacy(c *lp.Ctx) {
 	}
 }
 
+// genC18legacy: C18 on tries loaded from legacy streams of every layout ("KeyCnt is preserved when an equivalent
+// legacy stream is loaded", "unchanged by a marshal round trip"): the battery's Stat checks on key sets with keys
+// that are prefixes of other keys (old nodes that are inner node AND leaf) and ordinary ones.
+func genC18legacy(c *lp.Ctx) {
+	all := append(append([]string{}, Variants3...), Variants10...)
+	for it := 0; it < c.Pick(40, 200); it++ {
+		var ks gen.KeySet
+		switch it % 3 {
+		case 0:
+			ks = gen.PrefixChains(c.Rng, c.Pick(60, 300))
+		case 1:
+			ks = gen.PrefixChains(c.Rng, c.Pick(60, 300))
+			ks.Keys = withEmptyKey(ks.Keys)
+		default:
+			ks = keySet(c, it, c.Pick(80, 300))
+		}
+		for j := 0; j < 2; j++ {
+			runVariant(c, all[(it*2+j)%len(all)], ks.Class, ks.Keys, 7, 4, 1)
+		}
+	}
+}
+
 func genC06(c *lp.Ctx) {
 	// leaf counts that are exact multiples of 64 (and their neighbours) in every layout
 	all0 := append(append([]string{}, Variants3...), Variants10...)
@@ -973,4 +1015,5 @@ func init() {
 	lp.RegisterGen("C06", genC06)
 	lp.RegisterGen("C20", genC20legacy)
 	lp.RegisterGen("C14", genC14legacy)
+	lp.RegisterGen("C18", genC18legacy)
 }
